@@ -63,7 +63,8 @@ def cases(tier, seed):
     # feature names of every class (digits only, keywords, quotes, blanks ...) as operands
     from . import rt
     reps = [('REQUIRES', 'x', 'y'), ('OR', ('NOT', 'y', None), 'x'), ('EXCLUDES', 'y', 'x'), ('AND', 'x', ('OR', 'y', 'z')),
-            ('IMPLIES', ('AND', 'x', 'y'), ('NOT', 'x', None)), 'x', ('NOT', 'x', None), ('EQUIVALENCE', 'x', 'y'), ('XOR', 'y', 'x')]
+            ('IMPLIES', ('AND', 'x', 'y'), ('NOT', 'x', None)), 'x', ('NOT', 'x', None), ('EQUIVALENCE', 'x', 'y'), ('XOR', 'y', 'x'),
+            ('OR', 'x', 'y'), ('IMPLIES', ('NOT', 'y', None), 'x')]
     for _cls, members in rt.NAME_CLASSES.items():
         for nm in members:
             if nm.startswith("'"):
